@@ -744,6 +744,7 @@ analyze_function(CallGraphNode cg_node,
 		 const typename IntraCallSemAnalyzer::abs_dom_t &absval_fac,
                  typename IntraCallSemAnalyzer::abs_tr_t &abs_tr,
                  unsigned iteration) {
+  CRAB_VERIF_TICK();
   crab::ScopedCrabStats __st__(TimerInterAnalyzeFunc);
   using cfg_t = typename CallGraphNode::cfg_t;
   using abs_dom_t = typename IntraCallSemAnalyzer::abs_dom_t;
